@@ -56,7 +56,20 @@ static void case_rotation(vh::Ctx & c, vh::Rng & r)
   SmartRotation3D sr;
   if (r.coin()) {
     double o[3] = {r.coin(0.3) ? ang[0] : pick_angle(r, M_PI), r.coin(0.3) ? ang[1] : pick_angle(r, PL), r.coin(0.3) ? ang[2] : pick_angle(r, M_PI)};
-    sr.init(o[0], o[1], o[2]);
+    if (r.coin(0.6)) {
+      sr.init(o[0], o[1], o[2]);
+    } else {
+      // longer history mixing the two init overloads over a small pool of angle triples that
+      // contains the final one: "vector v, scalars w, vector v again" and all its relatives
+      double o2[3] = {pick_angle(r, M_PI), pick_angle(r, PL), pick_angle(r, M_PI)};
+      const double * pool[3] = {ang, o, o2};
+      const int steps = (int)r.range(2, 5);
+      for (int q = 0; q < steps; ++q) {
+        const double * t = pool[r.range(0, 2)];
+        if (r.coin()) {sr.init(Eigen::Vector3d(t[0], t[1], t[2]));} else {sr.init(t[0], t[1], t[2]);}
+      }
+      c.cat("a_history_mixing_init_overloads");
+    }
     if (r.coin()) {sr.init(Eigen::Vector3d(ang[0], ang[1], ang[2]));} else {sr.init(ang[0], ang[1], ang[2]);}
     c.cat("a_reinitialised_object");
   } else {
@@ -295,8 +308,20 @@ static void case_ls(vh::Ctx & c, vh::Rng & r, bool is_float)
     bool identity = r.coin(0.25);
     any_nonidentity = any_nonidentity || !identity;
     for (int i = 0; i < m; ++i) {Ad(i, i) = identity ? S(1) : (S)r.logu(1e-3, 1e3); a(i) = (LD)Ad(i, i);}
-    ls.setPreconditionner(Ad);
+    // call order: the preconditioner is configured before the solve, or the problem is solved under
+    // another one and the solver is re-configured between the solve and the covariance query (the
+    // covariance is that of the estimate the solver would now return: current A on both sides)
+    const bool reconfigured_after_solve = r.coin(0.25);
+    VecL a_at_solve = a;
+    if (reconfigured_after_solve) {
+      typename romea::core::LeastSquares<S>::Matrix A0p = romea::core::LeastSquares<S>::Matrix::Identity(m, m);
+      if (r.coin()) {for (int i = 0; i < m; ++i) {A0p(i, i) = (S)r.logu(1e-3, 1e3);}}
+      for (int i = 0; i < m; ++i) {a_at_solve(i) = (LD)A0p(i, i);}
+      ls.setPreconditionner(A0p);
+      c.cat("c_preconditioner_set_between_solve_and_covariance");
+    } else {ls.setPreconditionner(Ad);}
     if (path == 0) {ls.estimateUsingSVD();} else if (path == 1) {ls.estimateUsingCholeskyDecomposition();} else {ls.weightedEstimate();}
+    if (reconfigured_after_solve) {ls.setPreconditionner(Ad);}
     trace += std::string(k ? "," : "") + (path == 0 ? "svd" : path == 1 ? "cholesky" : "weighted") + ":" + std::to_string(n);
     h = vh::hash_add(h, (double)n); h = vh::hash_add(h, (double)J(0, 0));
     S var = (S)r.logu(1e-6, 1e3);
@@ -314,7 +339,15 @@ static void case_ls(vh::Ctx & c, vh::Rng & r, bool is_float)
     c.cat(path == 0 ? "c_path_svd" : path == 1 ? "c_path_cholesky" : "c_path_weighted");
     // rounding: the explicit inverse carries eps cond relative error; scaled entry-wise by a_i a_j
     LD tol = 64 * eps * cond * (LD)var * (a.asDiagonal() * inv.cwiseAbs() * a.asDiagonal()).norm();
-    c.expect_le("c.covariance_is_v_A_invJtJ_At", (rep - expct).norm(), tol, "ls_covariance_mismatch", params, [&]() {
+    LD cov_err = (rep - expct).norm();
+    if (reconfigured_after_solve) {
+      // both symmetric readings are accepted: A as configured now (what the library does) or as it
+      // was when the problem was solved; a mixture of the two is neither
+      MatL expct_at_solve = (LD)var * a_at_solve.asDiagonal() * inv * a_at_solve.asDiagonal();
+      LD tol_at_solve = 64 * eps * cond * (LD)var * (a_at_solve.asDiagonal() * inv.cwiseAbs() * a_at_solve.asDiagonal()).norm();
+      if (tol_at_solve > 0 && (rep - expct_at_solve).norm() / tol_at_solve < cov_err / tol) {cov_err = (rep - expct_at_solve).norm() / tol_at_solve * tol;}
+    }
+    c.expect_le("c.covariance_is_v_A_invJtJ_At", cov_err, tol, "ls_covariance_mismatch", params, [&]() {
         return vh::J().s("part", "c").s("history(path:rows)", trace).raw("reported", vh::jmat(rep)).raw("expected", vh::jmat(expct)).f("cond", cond).str();
       });
   }
